@@ -153,3 +153,7 @@ cfg("MC_schema_models.cfg", {"MaxSteps": "= 1", "BreakSteps": "<- Never", "EmitM
 cfg("MC_schema_models2.cfg", {"MaxSteps": "= 2", "BreakSteps": "<- Never", "EmitModels": "= TRUE"}, SCHEMA_INV)
 cfg("MC_schema_breaks.cfg", {"MaxSteps": "= 1", "BreakSteps": "= 1", "EmitModels": "= FALSE"}, SCHEMA_INV)
 cfg("MC_schema_breaks0.cfg", {"MaxSteps": "= 0", "BreakSteps": "= 0", "EmitModels": "= FALSE"}, SCHEMA_INV)
+
+# ---- R3 (schedules): large faulty requests drawn by TLC in simulation mode -----------------------------
+cfg("MC_faults_sim.cfg", fault_consts(FieldAlpha="<- AlphaAll", Aliases='= {"", "z"}', Conds='= {"", "T", "P", "A", "B", "C", "U"}', DirOpts="<- NoDirs",
+    ArgOpts="<- ArgOptsStd", MaxSel="= 9", MaxDepth="= 4", MaxFrags="= 1", MaxOps="= 1", OpTypes='= {"query", "mutation"}', MaxFaults="= 2"), FAULT_INV, spec="SpecF")
